@@ -54,31 +54,50 @@ func runC02(c *an.Ctx) {
 		}
 		key = fmt.Sprintf("Eval(%d) call #%d in %s", P, perFn[name], name)
 		phases[P]++
-		facts := an.FactsAt(s.Call)
-		var problems []string
-		// engine not off
-		if a := findAtom(facts, ".RuleEngine", "!=", off); a == nil {
-			problems = append(problems, "no dominating guard RuleEngine != Off")
-		} else if ok, why := guardStillValid(c, *a, s.Call, pkgWAF, "Transaction", "RuleEngine"); !ok {
-			problems = append(problems, why)
+		// the guards are looked for where the call is made; when the call sits in a private helper of the package
+		// (the end of the phase moved into evalRequestBodyPhase()), at every call site of that helper
+		type ctx struct {
+			facts an.Facts
+			at    ssa.Instruction
 		}
-		if P >= 1 && P <= 4 {
-			if a := findAtom(facts, ".interruption", "==", "nil"); a == nil {
-				problems = append(problems, "no dominating guard interruption == nil")
-			} else if ok, why := guardStillValid(c, *a, s.Call, pkgWAF, "Transaction", "interruption"); !ok {
+		ctxs := []ctx{{an.FactsAt(s.Call), s.Call}}
+		if !token.IsExported(s.Fn.Name()) && s.Fn.Parent() == nil && relPkg(s.Fn) == pkgWAF {
+			if hs := c.P.CallSites(func(x ssa.Instruction) bool { return an.IsCallTo(x, s.Fn) }); len(hs) > 0 {
+				ctxs = nil
+				for _, h := range hs {
+					ctxs = append(ctxs, ctx{append(append(an.Facts{}, an.FactsAt(h.Call)...), an.FactsAt(s.Call)...), h.Call})
+				}
+			}
+		}
+		facts := ctxs[0].facts
+		var problems []string
+		for _, cx := range ctxs {
+			facts, at := cx.facts, ssa.Instruction(cx.at)
+			_ = at
+			// engine not off
+			if a := findAtom(facts, ".RuleEngine", "!=", off); a == nil {
+				problems = append(problems, "no dominating guard RuleEngine != Off")
+			} else if ok, why := guardStillValid(c, *a, at, pkgWAF, "Transaction", "RuleEngine"); !ok {
 				problems = append(problems, why)
 			}
-			lo, hi, _ := facts.Range(".lastPhase")
-			if hi > P-1 {
-				problems = append(problems, fmt.Sprintf("lastPhase is not bounded by %d at the call (derived upper bound %s): the phase could run twice or after a later one", P-1, boundStr(hi)))
-			}
-			if (P == 2 || P == 4) && lo != P-1 {
-				problems = append(problems, fmt.Sprintf("body phase %d requires lastPhase == %d (derived lower bound %s)", P, P-1, boundStr(lo)))
-			}
-			for _, a := range facts.Find(".lastPhase") {
-				if ok, why := guardStillValid(c, a, s.Call, pkgWAF, "Transaction", "lastPhase"); !ok {
+			if P >= 1 && P <= 4 {
+				if a := findAtom(facts, ".interruption", "==", "nil"); a == nil {
+					problems = append(problems, "no dominating guard interruption == nil")
+				} else if ok, why := guardStillValid(c, *a, at, pkgWAF, "Transaction", "interruption"); !ok {
 					problems = append(problems, why)
-					break
+				}
+				lo, hi, _ := facts.Range(".lastPhase")
+				if hi > P-1 {
+					problems = append(problems, fmt.Sprintf("lastPhase is not bounded by %d at the call (derived upper bound %s): the phase could run twice or after a later one", P-1, boundStr(hi)))
+				}
+				if (P == 2 || P == 4) && lo != P-1 {
+					problems = append(problems, fmt.Sprintf("body phase %d requires lastPhase == %d (derived lower bound %s)", P, P-1, boundStr(lo)))
+				}
+				for _, a := range facts.Find(".lastPhase") {
+					if ok, why := guardStillValid(c, a, at, pkgWAF, "Transaction", "lastPhase"); !ok {
+						problems = append(problems, why)
+						break
+					}
 				}
 			}
 		}
@@ -212,29 +231,40 @@ func runC02(c *an.Ctx) {
 			}
 			nret++
 			key := fmt.Sprintf("%s return #%d", m, nret)
-			v := ret.Results[0]
-			if an.LoadsField(v, fullWAF, "Transaction", "interruption") {
-				c.OkTrivial("R8", key, ret.Pos(), "returns tx.interruption")
-				return
-			}
-			facts := an.FactsAt(ret)
-			if cst, isC := v.(*ssa.Const); isC && cst.Value == nil {
-				if txEngine(facts, "==", off) {
-					c.Ok("R8", key, ret.Pos(), "returns nil only with the engine Off", facts.Strings()...)
-					return
-				}
-				if a := findAtom(facts, ".interruption", "==", "nil"); a != nil {
-					if ok, why := guardStillValid(c, *a, ret, pkgWAF, "Transaction", "interruption"); ok {
-						c.Ok("R8", key, ret.Pos(), "returns nil only where interruption == nil is established and not invalidated", facts.Strings()...)
-					} else {
-						c.Bad("R8", key, ret.Pos(), "returns nil although an interruption may have been raised since the guard: "+why, facts.Strings()...)
+			// the returned interruption, looked at value by value (a phi, or the result of a private helper that
+			// ends the phase: `return tx.evalRequestBodyPhase()`)
+			okAll, how, bad := true, "", ""
+			for _, lf := range leavesOf(ret.Results[0], an.FactsAt(ret), 0) {
+				v, facts := lf.V, lf.F
+				switch {
+				case an.LoadsField(v, fullWAF, "Transaction", "interruption"):
+					how = "returns tx.interruption"
+				default:
+					cst, isC := v.(*ssa.Const)
+					if !isC || cst.Value != nil {
+						okAll, bad = false, m+" returns an interruption value that is neither tx.interruption nor nil: "+an.Expr(v)
+						continue
 					}
-					return
+					if txEngine(facts, "==", off) {
+						how = "returns nil only with the engine Off"
+						continue
+					}
+					if a := findAtom(facts, ".interruption", "==", "nil"); a != nil {
+						if ok, why := guardStillValid(c, *a, ret, pkgWAF, "Transaction", "interruption"); ok {
+							how = "returns nil only where interruption == nil is established and not invalidated"
+						} else {
+							okAll, bad = false, "returns nil although an interruption may have been raised since the guard: "+why
+						}
+						continue
+					}
+					okAll, bad = false, m+" can return a nil interruption on a path where the transaction may already be interrupted (no dominating interruption == nil or engine Off guard): a later phase call would not report the interruption"
 				}
-				c.Bad("R8", key, ret.Pos(), m+" can return a nil interruption on a path where the transaction may already be interrupted (no dominating interruption == nil or engine Off guard): a later phase call would not report the interruption", facts.Strings()...)
-				return
 			}
-			c.Bad("R8", key, ret.Pos(), m+" returns an interruption value that is neither tx.interruption nor nil: "+an.Expr(v))
+			if okAll {
+				c.Ok("R8", key, ret.Pos(), how, an.FactsAt(ret).Strings()...)
+			} else {
+				c.Bad("R8", key, ret.Pos(), bad, an.FactsAt(ret).Strings()...)
+			}
 		})
 		c.MinCount("R8", "returns of "+m, nret, 2)
 	}
